@@ -18,6 +18,8 @@ import vf.bootstrap
 import lbry
 print('lbry imported from', lbry.__file__)
 import jsonschema
+from vf.selftest import selftest
+print('engine selftest ok', selftest())
 sys.exit(bad)
 PY
 if [ -x tools/fixtures.sh ]; then tools/fixtures.sh || exit 1; fi
